@@ -125,13 +125,21 @@ class Unit:
         src, text, s, e, kind = self._cut(m)
         self.info.update(file=m['file'], lines=[X.lineno(src, s), X.lineno(src, e)], sha=X.sha(text), cut=kind)
         extra = []
-        for line in sp.sec('rules').split('\n'):
+        rule_text = sp.sec('rules')
+        for lib in sp.lst('rules_lib'):
+            rule_text += '\n' + open(os.path.join(VERIF, 'contracts', 'lib', lib + '.rules')).read()
+        for line in rule_text.split('\n'):
             line = line.strip()
             if not line or line.startswith('#'):
                 continue
             nm, pat, rep = line.split(' ::: ')
             extra.append((nm.strip(), pat.strip(), rep.strip() if rep.strip() != '<empty>' else ''))
-        drop = [l.strip() for l in sp.sec('drop').split('\n') if l.strip()]
+        drop_text = sp.sec('drop')
+        for lib in sp.lst('rules_lib'):
+            dp_ = os.path.join(VERIF, 'contracts', 'lib', lib + '.drop')
+            if os.path.exists(dp_):
+                drop_text += '\n' + open(dp_).read()
+        drop = [l.strip() for l in drop_text.split('\n') if l.strip() and not l.startswith('#')]
         rw = X.Rewriter(scalars=sp.lst('scalars') or ['Index', 'IT_', 'DT_'], extra_rules=extra, drop=drop,
                         members=sp.lst('members'), enums=sp.lst('enums'))
         cname = m.get('cname')
